@@ -1176,3 +1176,56 @@ def blank_scans(fdecl):
             rec(c)
     rec(fdecl)
     return out
+
+
+def base_pointer_in_element_loop(fdecl):
+    """for-loops that advance a local pointer P (`P += k`) which was initialised from a parameter Q: uses of Q
+    inside the loop body (every element would then be read at the array's start).  -> list of (P, Q)."""
+    out = []
+    inits = {}
+
+    def collect(n):
+        if not isinstance(n, dict):
+            return
+        if n.get("kind") == "VarDecl" and n.get("inner"):
+            e = _strip(n["inner"][-1])
+            if e.get("kind") == "DeclRefExpr" and e.get("referencedDecl", {}).get("kind") == "ParmVarDecl":
+                inits[n["name"]] = e["referencedDecl"]["name"]
+        for c in n.get("inner", []) or []:
+            collect(c)
+    collect(fdecl)
+
+    def refs(n, name, acc):
+        if not isinstance(n, dict):
+            return
+        if n.get("kind") == "DeclRefExpr" and n.get("referencedDecl", {}).get("name") == name:
+            acc.append(n)
+        for c in n.get("inner", []) or []:
+            refs(c, name, acc)
+
+    def rec(n):
+        if not isinstance(n, dict):
+            return
+        if n.get("kind") == "ForStmt":
+            body = n.get("inner", [None] * 5)[4]
+            adv = []
+
+            def find_adv(x):
+                if not isinstance(x, dict):
+                    return
+                if x.get("kind") == "CompoundAssignOperator" and x.get("opcode") == "+=":
+                    l = _strip(x["inner"][0])
+                    if l.get("kind") == "DeclRefExpr" and l["referencedDecl"]["name"] in inits:
+                        adv.append(l["referencedDecl"]["name"])
+                for c in x.get("inner", []) or []:
+                    find_adv(c)
+            find_adv(body)
+            for p_ in adv:
+                acc = []
+                refs(body, inits[p_], acc)
+                if acc:
+                    out.append((p_, inits[p_]))
+        for c in n.get("inner", []) or []:
+            rec(c)
+    rec(fdecl)
+    return out
